@@ -67,6 +67,8 @@ def describe(rng, kind=None, allow_convexity=True, nf=None):
       if not any(n_ in l for l in lat):
         lat.append([n_, names[0] if names[0] != n_ else names[1]])
     d["lattices"] = lat
+  # per-feature and model-level regularizer configs (both at once: the builder merges the two lists)
+  d["regularizers"] = bool(rng.rand() < .25)
   d["num_lattices"] = max(2, int(np.ceil(nf / 2.0)) + int(rng.randint(0, 2)))
   d["lattice_rank"] = 2
   return d
@@ -91,12 +93,16 @@ def build(desc):
           pwl_calibration_input_keypoints=list(KP), default_value=f["default_value"],
           pwl_calibration_always_monotonic=f["always_monotonic"], pwl_calibration_convexity=f["convexity"],
           pwl_calibration_clamp_min=f["clamp_min"], pwl_calibration_clamp_max=f["clamp_max"],
-          pwl_calibration_input_keypoints_type=f["keypoints_type"]))
+          pwl_calibration_input_keypoints_type=f["keypoints_type"],
+          regularizer_configs=([tfl.configs.RegularizerConfig(name="calib_wrinkle", l2=1e-3)] if desc.get("regularizers") else None)))
   omin, omax, oc = desc["omin"], desc["omax"], desc["output_calibration"]
   oi = [omin if omin is not None else -1.0, omax if omax is not None else 2.0]
   common = dict(feature_configs=fcs, output_min=omin, output_max=omax, output_calibration=oc,
                 output_initialization=oi if not oc else [float(v) for v in np.linspace(oi[0], oi[1], 4)],
                 output_calibration_input_keypoints_type=desc["oc_keypoints_type"])
+  if desc.get("regularizers") and not kind.startswith("stack"):
+    common["regularizer_configs"] = [tfl.configs.RegularizerConfig(name="calib_hessian", l2=1e-3)] + (
+        [] if (kind == "linear" or "kfl" in kind) else [tfl.configs.RegularizerConfig(name="torsion", l2=1e-3)])   # KFL rejects lattice regularizers
   if kind == "linear":
     cfg = tfl.configs.CalibratedLinearConfig(
         use_bias=bool(omin is None and omax is None and not oc and desc["use_bias"]), **common)
